@@ -29,7 +29,7 @@ pub fn run(p: &Prog, cfg: &Cfg, rep: &mut Report) {
         .boxed();
     run_cases(cfg, &p.model.id, "data", strat, rep, |case: &ReplyCase, tally| {
         let m = method_of(&methods, &rows[case.row].ok).unwrap();
-        let exp = run_reply_case(p, &rows, &methods, ids, case, "data", false)?;
+        let exp = run_reply_case(p, &rows, &methods, ids, case, "data", 0)?;
         tally.class(&format!("mode:{:?}", m.spec.data));
         tally.class(&format!("data:{}", case.data_class));
         tally.class(&format!("type:{:?}", m.data_conc));
